@@ -16,7 +16,8 @@ THEOREMS = ['C02_refract_unit', 'C02_refract_snell', 'C02_refract_halfspace', 'C
             'C02_surface_opd', 'C02_opl_is_sum', 'C02_opl_increment_n_times_t', 'C02_propagate_is_translation',
             'C02_propagate_length', 'C02_std_sag_dx', 'C02_std_sag_dy', 'C02_std_normal_is_gradient',
             'C02_ea_sag_is_conic_plus_poly', 'C02_ea_sag_dx', 'C02_ea_normal_is_gradient',
-            'C02_refract_tir_nonfinite', 'C02_refract_lift', 'C02_reflect_lift']
+            'C02_refract_tir_nonfinite', 'C02_refract_lift', 'C02_reflect_lift',
+            'C02_globalize_localize', 'C02_localize_globalize', 'C02_recorded_point_in_surface_frame']
 TRUSTED_BASE = BASE_TRUSTED + [
     'modelled, not verified: material.n(w) values are inputs of the trace model (C18 covers them)',
 ]
@@ -222,15 +223,15 @@ CHEB_REPLAY = {
 
 
 def matches_finding(w, f):
-    """a witness is the listed Chebyshev finding only if EVERY oracle complaint is a Snell/half-space
-    residual at a Chebyshev surface whose normalisation differs from 1"""
+    """a witness is the listed Chebyshev finding only if EVERY oracle complaint is a Snell / half-space /
+    reflection-law residual at a Chebyshev surface whose normalisation differs from 1 (wrong surface normal)"""
     if f['id'] != 'chebyshev-normal-norm':
         return False
     orc = w.get('oracle') or []
     if not orc:
         return False
     for v in orc:
-        if not isinstance(v, dict) or v.get('shape') != 'cheb' or v.get('kind') not in ('snell', 'halfspace'):
+        if not isinstance(v, dict) or v.get('shape') != 'cheb' or v.get('kind') not in ('snell', 'halfspace', 'reflect'):
             return False
         sp = w['spec']['surfaces'][v['surface'] - 1] if v['surface'] - 1 < len(w['spec']['surfaces']) else {}
         if sp.get('norm_x', 1) == 1 and sp.get('norm_y', 1) == 1:
